@@ -74,6 +74,7 @@ var c03Fixed = []string{
 	"{{ longrecs | sort_natural: 'name' | map: 'name' | join: '' }}{{ mixedrecs | sort_natural: 'name' | size }}{{ longrecs | map: 'k' | uniq | size }}",
 	// application tags (custom.go): Context.Set writes a variable of this render, never the caller's map
 	"{% xset spare = 'custom-shadow' %}{{ spare }}{% xset newvar = 5 %}{{ newvar }}{% xget newvar %}{% xset words = spare %}", "{% xwrap {{ n }} %}{% assign inwrap = 1 %}{{ spare | sort | first }}{% xset deep = words | first %}{% endxwrap %}{{ inwrap }}{{ deep }}",
+	"{% xbump hits %}{% xbump hits %}{{ hits }}{% xbump n %}{{ n }}{% xbump spare %}{{ spare }}", "{% xbump k %}{% for x in spare %}{% xbump loops %}{% endfor %}{{ loops }}{{ k }}",
 	"{% xtwice %}{% cycle 'a', 'b', 'c' %}{% assign tw = tw | append: 'x' %}{% endxtwice %}{{ tw }}", "{% xwhen spare contains 3 %}{% xset st = nil %}{% xset recs = 1 %}{% endxwhen %}{{ st }}{{ recs }}{% xecho {{ spare | reverse | join: ',' }} %}",
 	"{{ words | join: ',' | split: ',' | sort | last }}{{ words | first | append: '!' }}", "{% case spare.size %}{% when 4 %}{% assign four = true %}{% endcase %}{{ four }}{% unless four %}U{% endunless %}",
 }
